@@ -101,6 +101,13 @@ func BuildGocc(root string, withSim bool) (*Gocc, error) {
 		return nil, fmt.Errorf("instrument gocc: %w", err)
 	}
 	g.Census = c
+	if len(c.GoStmts) > 0 && !c.CoopEnabled {
+		// real goroutines stay real: perturb their schedule at every tick
+		mode := "package simrt\n\nfunc init() { Threaded = true }\n"
+		if err := os.WriteFile(filepath.Join(g.Copy, "internal", "verifsim", "simrt", "zz_mode.go"), []byte(mode), 0o644); err != nil {
+			return nil, err
+		}
+	}
 	g.Sim = filepath.Join(bin, "gocc-sim")
 	if err := scratch.GoBuild(g.Copy, g.Sim, "."); err != nil {
 		return nil, fmt.Errorf("instrumented copy does not build (harness problem): %w", err)
